@@ -291,10 +291,6 @@ Qed.
 (* 4. thin shapes: what is drawn, bounding boxes, translation                  *)
 (* ======================================================================== *)
 
-(* the colour a triangle with stroke width 0 is drawn in *)
-Definition w0_color (st : style) (collapsed : bool) : option Z :=
-  if collapsed then effective_stroke_color st else fill_color st.
-
 Lemma flat_map_colored_map {A} (f : A -> scanline) (g : A -> scanline * point_type) st k l :
   (forall x, g x = (f x, k)) ->
   flat_map (fun lk => colored (color_of st (snd lk)) (sl_points (fst lk))) (map g l) =
@@ -304,17 +300,15 @@ Proof.
   rewrite IH, Hg. cbn [fst snd]. destruct (color_of st k); cbn [colored]; [rewrite map_app|]; reflexivity.
 Qed.
 
-(* Styled<Triangle> with stroke width 0: points() in one colour *)
-Theorem tri_styled_pixels_w0_spec st collapsed t :
-  tri_styled_pixels_w0 st collapsed t = colored (w0_color st collapsed) (tri_points t).
+(* Styled<Triangle> with stroke width 0: points() in the fill colour (nothing without fill) *)
+Theorem tri_styled_pixels_w0_spec st t :
+  tri_styled_pixels_w0 st t = colored (fill_color st) (tri_points t).
 Proof.
-  unfold tri_styled_pixels_w0. rewrite tri_styled_pixels_spec. unfold tri_pixels_ref, tri_gen_w0, w0_color, tri_points.
-  destruct collapsed.
-  - rewrite (flat_map_colored_map (fun s => s) _ st PTStroke) by reflexivity. rewrite map_id. reflexivity.
-  - unfold has_fill. destruct (fill_color st) as [c|] eqn:F.
-    + rewrite (flat_map_colored_map (fun s => s) _ st PTFill) by reflexivity. rewrite map_id.
-      unfold color_of. rewrite F. reflexivity.
-    + reflexivity.
+  unfold tri_styled_pixels_w0. rewrite tri_styled_pixels_spec. unfold tri_pixels_ref, tri_gen_w0, tri_points.
+  unfold has_fill. destruct (fill_color st) as [c|] eqn:F.
+  - rewrite (flat_map_colored_map (fun s => s) _ st PTFill) by reflexivity. rewrite map_id.
+    unfold color_of. rewrite F. reflexivity.
+  - reflexivity.
 Qed.
 
 (* C02: transparent draws nothing, whatever the generator yields *)
@@ -352,23 +346,14 @@ Definition tri_styled_bbox_short (st : style) (t : triangle) : option rect :=
   then Some (tri_bounding_box t) else None.
 
 (* C02, triangle with stroke width 0: everything pixels() yields / draw() writes is inside the styled bounding box *)
-Theorem tri_w0_in_bbox st collapsed t bb p c : tri_ok t -> stroke_width st = 0 ->
+Theorem tri_w0_in_bbox st t bb p c : tri_ok t -> stroke_width st = 0 ->
   tri_styled_bbox_short st t = Some bb ->
-  In (p, c) (tri_styled_pixels_w0 st collapsed t) -> contains bb p = true.
+  In (p, c) (tri_styled_pixels_w0 st t) -> contains bb p = true.
 Proof.
   intros Hok Hw Hbb Hin. unfold tri_styled_bbox_short in Hbb. rewrite Hw in Hbb. cbn in Hbb. injection Hbb as <-.
-  rewrite tri_styled_pixels_w0_spec in Hin. destruct (w0_color st collapsed) as [c'|]; [|destruct Hin].
+  rewrite tri_styled_pixels_w0_spec in Hin. destruct (fill_color st) as [c'|]; [|destruct Hin].
   cbn [colored] in Hin. apply in_map_iff in Hin. destruct Hin as (q & E & Hq). injection E as -> _.
   apply points_in_bbox; assumption.
-Qed.
-
-Theorem tri_w0_draw_in_bbox st collapsed t bb p c : tri_ok t -> stroke_width st = 0 ->
-  tri_styled_bbox_short st t = Some bb ->
-  Forall (fun lk => sl_ok (fst lk)) (tri_gen_w0 (has_fill st) collapsed t) ->
-  In (p, c) (flat_map fill_writes (tri_draw_styled_w0 st collapsed t)) -> contains bb p = true.
-Proof.
-  intros Hok Hw Hbb Hsl Hin. unfold tri_draw_styled_w0 in Hin. rewrite tri_glue_pixels_draw in Hin by assumption.
-  eapply tri_w0_in_bbox; eassumption.
 Qed.
 
 (* the scanlines of a triangle inside the range hypothesis are inside the range of sl_ok *)
@@ -391,16 +376,16 @@ Proof.
   unfold sl_ok, sbound. rewrite Ey. lia.
 Qed.
 
-Lemma tri_gen_w0_ok hf collapsed t : tri_ok t -> Forall (fun lk => sl_ok (fst lk)) (tri_gen_w0 hf collapsed t).
+Lemma tri_gen_w0_ok hf t : tri_ok t -> Forall (fun lk => sl_ok (fst lk)) (tri_gen_w0 hf t).
 Proof.
   intros Hok. pose proof (tri_scanlines_ok t Hok) as H. unfold tri_gen_w0.
-  destruct collapsed; [|destruct hf; [|constructor]]; apply Forall_forall; intros lk Hlk;
+  destruct hf; [|constructor]; apply Forall_forall; intros lk Hlk;
     apply in_map_iff in Hlk; destruct Hlk as (s & <- & Hs); cbn [fst]; rewrite Forall_forall in H; apply H, Hs.
 Qed.
 
 (* draw() = pixels() for the fill-only triangle, generator included *)
-Theorem tri_w0_pixels_draw st collapsed t : tri_ok t ->
-  flat_map fill_writes (tri_draw_styled_w0 st collapsed t) = tri_styled_pixels_w0 st collapsed t.
+Theorem tri_w0_pixels_draw st t : tri_ok t ->
+  flat_map fill_writes (tri_draw_styled_w0 st t) = tri_styled_pixels_w0 st t.
 Proof. intros Hok. apply tri_glue_pixels_draw, tri_gen_w0_ok, Hok. Qed.
 
 (* ---- thin polyline inside the bounding box of the primitive ------------------------------------- *)
@@ -409,7 +394,7 @@ Proof. destruct l; cbn [List.tl]; [auto | right; assumption]. Qed.
 
 Lemma segments_ends vs l : In l (segments vs) -> In (l_start l) vs /\ In (l_end l) vs.
 Proof.
-  induction vs as [|a t IH]; [intros []|]. destruct t as [|b r]; [cbn [segments]; intros []|].
+  induction vs as [|a t IH]; [cbn [segments]; intros []|]. destruct t as [|b r]; [cbn [segments]; intros []|].
   rewrite segments_cons2. intros [<-|H].
   - cbn [l_start l_end]. split; [left; reflexivity | right; left; reflexivity].
   - destruct (IH H) as [H1 H2]. split; right; assumption.
@@ -431,8 +416,8 @@ Definition fmax (acc v : point) : point := P (Z.max (px acc) (px v)) (Z.max (py 
 Lemma fold_fmin_le vs : forall acc v, In v vs ->
   px (fold_left fmin vs acc) <= px v /\ py (fold_left fmin vs acc) <= py v.
 Proof.
-  induction vs as [|a r IH]; intros acc v [<-|H]; cbn [fold_left].
-  - clear IH. generalize (fmin acc a). revert a. intros a q.
+  induction vs as [|a r IH]; [intros acc v []|]. intros acc v [<-|H]; cbn [fold_left].
+  - clear IH.
     assert (G : forall l q, px (fold_left fmin l q) <= px q /\ py (fold_left fmin l q) <= py q).
     { induction l as [|x l IHl]; intros q0; cbn [fold_left]; [lia|].
       specialize (IHl (fmin q0 x)). unfold fmin in *. cbn [px py] in *. lia. }
@@ -443,7 +428,7 @@ Qed.
 Lemma fold_fmax_ge vs : forall acc v, In v vs ->
   px v <= px (fold_left fmax vs acc) /\ py v <= py (fold_left fmax vs acc).
 Proof.
-  induction vs as [|a r IH]; intros acc v [<-|H]; cbn [fold_left].
+  induction vs as [|a r IH]; [intros acc v []|]. intros acc v [<-|H]; cbn [fold_left].
   - assert (G : forall l q, px q <= px (fold_left fmax l q) /\ py q <= py (fold_left fmax l q)).
     { induction l as [|x l IHl]; intros q0; cbn [fold_left]; [lia|].
       specialize (IHl (fmax q0 x)). unfold fmax in *. cbn [px py] in *. lia. }
@@ -490,9 +475,9 @@ Definition shift_px (d : point) (pc : point * Z) : point * Z := (padd (fst pc) d
 Lemma colored_shift oc d ps : colored oc (map (fun p => padd p d) ps) = map (shift_px d) (colored oc ps).
 Proof. destruct oc; cbn [colored]; [rewrite !map_map; reflexivity | reflexivity]. Qed.
 
-(* Styled<Triangle> with stroke width 0 (`collapsed`: see Model/Tristyled.v; the same value for both triangles) *)
-Theorem tri_w0_translate st collapsed t d : tri_ok t -> tri_ok (tri_translate t d) ->
-  tri_styled_pixels_w0 st collapsed (tri_translate t d) = map (shift_px d) (tri_styled_pixels_w0 st collapsed t).
+(* Styled<Triangle> with stroke width 0 *)
+Theorem tri_w0_translate st t d : tri_ok t -> tri_ok (tri_translate t d) ->
+  tri_styled_pixels_w0 st (tri_translate t d) = map (shift_px d) (tri_styled_pixels_w0 st t).
 Proof.
   intros H1 H2. rewrite !tri_styled_pixels_w0_spec, tri_points_translate by assumption. apply colored_shift.
 Qed.
@@ -537,8 +522,8 @@ Proof.
   assert (Emap : map (fun v => padd v (padd tr d)) (v0 :: v1 :: r) =
                  map (fun v => padd v d) (map (fun v => padd v tr) (v0 :: v1 :: r))).
   { rewrite map_map. apply map_ext. intros [x y]. destruct tr as [tx ty], d as [dx dy]. unfold padd. cbn [px py]. f_equal; lia. }
-  rewrite Emap. set (tvs := map (fun v => padd v tr) (v0 :: v1 :: r)).
-  assert (Ht : tvs = padd v0 tr :: map (fun v => padd v tr) (v1 :: r)) by reflexivity.
+  rewrite Emap. set (rest := map (fun v => padd v tr) (v1 :: r)).
+  change (map (fun v => padd v tr) (v0 :: v1 :: r)) with (padd v0 tr :: rest).
   assert (Ed : padd v0 (padd tr d) = padd (padd v0 tr) d).
   { destruct v0 as [x y], tr as [tx ty], d as [dx dy]. unfold padd. cbn [px py]. f_equal; lia. }
   rewrite Ed in O2. set (w := padd v0 tr) in *.
@@ -546,7 +531,7 @@ Proof.
   { intros q l [Q1 Q2]. cbn [fold_left]. f_equal. unfold fmin. cbn [px py]. destruct q as [x y]. cbn [px py] in *. f_equal; lia. }
   assert (Fmax : forall q l, ppoint_ok q -> fold_left fmax (q :: l) (P i32_min i32_min) = fold_left fmax l q).
   { intros q l [Q1 Q2]. cbn [fold_left]. f_equal. unfold fmax. cbn [px py]. destruct q as [x y]. cbn [px py] in *. f_equal; lia. }
-  rewrite Ht. cbn [map]. fold w.
+  change (map (fun v => padd v d) (w :: rest)) with (padd w d :: map (fun v => padd v d) rest).
   rewrite (Fmin (padd w d)), (Fmax (padd w d)), (Fmin w), (Fmax w) by assumption.
   rewrite fold_fmin_shift, fold_fmax_shift.
   set (lo := fold_left fmin _ w). set (hi := fold_left fmax _ w). clearbody lo hi.
